@@ -29,7 +29,9 @@ func init() {
 			// names that URL escaping would rewrite: the route is compared with the decoded request path
 			{SpecName: "open api.yaml"}, {SpecName: "docs/openapi.yaml", BasePath: "/v2"}, {SpecName: "pétstore.yaml"}, {SpecName: "a%20b.json"}, {SpecName: "spec+v1;x=1.yaml", Client: true},
 			// names that are not Go string literal text as they stand
-			{SpecName: "a\"b.yaml"}, {SpecName: "a\\b.yaml", BasePath: "/v1"}, {SpecName: "tab\there.yaml"}}
+			{SpecName: "a\"b.yaml"}, {SpecName: "a\\b.yaml", BasePath: "/v1"}, {SpecName: "tab\there.yaml"},
+			// ... and whose extension (spliced into the Content-Type of the answer) is not either
+			{SpecName: "open\"api.ya\\ml"}, {SpecName: "spec.y\"ml", BasePath: "/v3"}}
 		for name, raw := range forms {
 			for bi, fl := range bases {
 				mk(fmt.Sprintf("specfile/%s/base%d", name, bi), raw, ".json", fl)
